@@ -25,4 +25,13 @@ Definition run_c14 (cmd : str) (args : list sexp) : option sexp :=
     match args with
     | [lk; r] => obind (d_list (d_pair d_nat d_ua) lk) (fun lk => omap (fun r => e_rows (normalized_refs lk r)) (d_list d_triple r))
     | _ => None end
+  else if str_eqb cmd (lit "c14_nodes_ns") then
+    match args with
+    | [lk; k; n] => obind (d_list (d_pair d_nat d_ua) lk) (fun lk => obind (d_nat k) (fun k => omap (fun n => e_rows (normalized_nodes_ns lk k n)) (d_list (d_pair d_gnode d_nat) n)))
+    | _ => None end
+  else if str_eqb cmd (lit "c14_refs_ns") then
+    match args with
+    | [lk; k; n; r] => obind (d_list (d_pair d_nat d_ua) lk) (fun lk => obind (d_nat k) (fun k => obind (d_list (d_pair d_gnode d_nat) n) (fun n =>
+                         omap (fun r => e_rows (normalized_refs_ns lk k n r)) (d_list d_triple r))))
+    | _ => None end
   else None.
